@@ -23,10 +23,31 @@ type vEvent struct {
 var vLexLastTok TokenType
 
 // vLexEvents lexes src to the end and returns the events and the terminal error.
+// vLexLastLexer/vLexLastSource: the lexer and source of the last vLexEvents run (to go on lexing after its terminal
+// token); vLexEventsFrom continues an existing lexer.
+var vLexLastLexer *Lexer
+var vLexLastSource *vSource
+var vLexSink *[]vEvent
+
+func vLexEventsFrom(lex *Lexer, src *vSource) ([]vEvent, error) {
+	var evs []vEvent
+	vLexSink = &evs
+	for {
+		tok, rec, err := lex.Next(nil)
+		if err != nil {
+			vLexLastTok = tok
+			return evs, err
+		}
+		evs = append(evs, vEvent{tok: tok, rec: append([]byte(nil), rec...), pos: src.pos})
+	}
+}
+
 func vLexEvents(src *vSource, opts *LexerOptions) ([]vEvent, error) {
 	var evs []vEvent
+	vLexSink = &evs
 	o := *opts
 	o.AttachmentCallback = func(ar *AttachmentReader) error {
+		evs := vLexSink
 		d, err := io.ReadAll(ar.Data())
 		ev := vEvent{att: true, ar: *ar, data: d, derr: err}
 		if err == nil {
@@ -35,13 +56,14 @@ func vLexEvents(src *vSource, opts *LexerOptions) ([]vEvent, error) {
 			ev.perr = err
 		}
 		ev.pos = src.pos
-		evs = append(evs, ev)
+		*evs = append(*evs, ev)
 		return nil
 	}
 	lex, err := NewLexer(src, &o)
 	if err != nil {
 		return evs, err
 	}
+	vLexLastLexer, vLexLastSource = lex, src
 	for {
 		tok, rec, err := lex.Next(nil)
 		if err != nil {
